@@ -46,7 +46,9 @@ def run(chk, replay):
                        "theorems about the retry RUN (order, limit, accounting of reset steps, deadlock freedom, termination) hold for "
                        "steps without repeatPolicy (NoRep) and under the model's environment assumption that a running command ends"]
     common.lean_obligations(chk, "BdModel/Props/C10.lean", dict(TIE, Hist=None), extra_targets=["BdModel.Sched.Tables"])
-    import hist as _hist
+    import hist as _hist, x_retry_cmd
+    if replay and "retry_cmd_case" in json.load(open(replay)).get("case", {}):
+        x_retry_cmd.stream(chk, "C10", json.load(open(replay))["case"]["retry_cmd_case"]); return
     if replay and "hist_case" in json.load(open(replay)).get("case", {}):
         _hist.replay_big_record(chk, "C10", "a retry looks the recorded run up by request id and re-executes what that record says did not complete", json.load(open(replay))["case"]["hist_case"]); return
     if not replay:
@@ -138,3 +140,7 @@ def run(chk, replay):
                 "continueOn, retries, preconditions, limits, stop at a PRNG point); retried with fresh outcome scripts (70%% succeed), "
                 "15%% with a stop during the retry; non-trivial = DAG has an edge and some step is not finished; distinct = distinct (DAG, vector)"
                 % (8 if chk.tier == "quick" else 12))
+    if not replay:
+        # the same through the REAL `start` / `retry --req` commands (the look-up of the recorded run under the path of the command
+        # line, the steps the retry uses after the file was edited), lib/x_retry_cmd.py; last and without PRNG
+        x_retry_cmd.stream(chk, "C10")
